@@ -185,7 +185,7 @@ func runAppendAlias(p *Prog, r *Report) {
 	runE3(p, sub)
 	n := 0
 	for _, o := range sub.Obligs {
-		if o.Rule == "E3.append-alias" || o.Rule == "E3.escaping-write" {
+		if o.Rule == "E3.append-alias" || o.Rule == "E3.escaping-write" || (strings.HasPrefix(o.Rule, "E3.") && o.Status != OK && o.Status != Excepted) {
 			r.Obligs = append(r.Obligs, o)
 			r.Counts[o.Rule]++
 			n++
